@@ -717,7 +717,6 @@ func assertMerge(vm *VM, t Term, merge func([]clause, []clause) []clause, env *E
 	if err != nil {
 		return err
 	}
-
 	// The stored term must not share variables with the caller.
 	raw, err := renamedCopy(added[0].raw, nil, nil)
 	if err != nil {
@@ -1121,22 +1120,34 @@ func Retract(vm *VM, t Term, k Cont, env *Env) *Promise {
 		return Error(permissionError(operationModify, permissionTypeStaticProcedure, pi.Term(), env))
 	}
 
-	ks := make([]func(context.Context) *Promise, len(u.clauses))
-	for i, c := range u.clauses {
+	ks := make([]func(context.Context) *Promise, 0, len(u.clauses))
+	for _, c := range u.clauses {
+		if c.alt {
+			continue // It belongs to the preceding clause.
+		}
 		c := c
 		raw := rulify(c.raw, env)
-		ks[i] = func(_ context.Context) *Promise {
+		ks = append(ks, func(_ context.Context) *Promise {
 			return Unify(vm, t, raw, func(env *Env) *Promise {
 				// The database may have changed since the call. Look for the very clause we unified with.
 				for j := range u.clauses {
-					if id(u.clauses[j].raw) == id(c.raw) {
-						u.clauses, u.clauses[len(u.clauses)-1] = append(u.clauses[:j], u.clauses[j+1:]...), clause{}
-						break
+					if id(u.clauses[j].raw) != id(c.raw) {
+						continue
 					}
+					n := 1 // with its alternatives if the body is a disjunction.
+					for j+n < len(u.clauses) && u.clauses[j+n].alt {
+						n++
+					}
+					rest := append(u.clauses[:j], u.clauses[j+n:]...)
+					for i := len(rest); i < len(u.clauses); i++ {
+						u.clauses[i] = clause{}
+					}
+					u.clauses = rest
+					break
 				}
 				return k(env)
 			}, env)
-		}
+		})
 	}
 	return Delay(ks...)
 }
@@ -2011,16 +2022,19 @@ func Clause(vm *VM, head, body Term, k Cont, env *Env) *Promise {
 		return Error(permissionError(operationAccess, permissionTypePrivateProcedure, pi.Term(), env))
 	}
 
-	ks := make([]func(context.Context) *Promise, len(u.clauses))
-	for i, c := range u.clauses {
+	ks := make([]func(context.Context) *Promise, 0, len(u.clauses))
+	for _, c := range u.clauses {
+		if c.alt {
+			continue // It belongs to the preceding clause.
+		}
 		cp, err := renamedCopy(c.raw, nil, env)
 		if err != nil {
 			return Error(err)
 		}
 		r := rulify(cp, env)
-		ks[i] = func(context.Context) *Promise {
+		ks = append(ks, func(context.Context) *Promise {
 			return Unify(vm, atomIf.Apply(head, body), r, k, env)
-		}
+		})
 	}
 	return Delay(ks...)
 }
